@@ -8,7 +8,7 @@ Mirrors, function by function,
 * `component/outbound/dialer/annotation.go`: `NewAnnotation`;
 * `component/outbound/dialer_selection_policy.go`: `NewDialerSelectionPolicyFromGroupParam`
   (with `config.ParseFunctionListOrString` and `strconv.Atoi`);
-* the glue of `control/control_plane.go:569-607` (policy first, then filter, then the group) and the
+* the pool+group region of `control.NewControlPlane` in `control/control_plane.go` (extracted verbatim by the check) (policy first, then filter, then the group) and the
   `fixed(i)` branch of `DialerGroup._select`.
 
 Strings are byte lists (`Str`), exactly Go's `string` (arbitrary bytes, compared bytewise).
